@@ -1356,6 +1356,11 @@ def f55():
     return None
 
 
+@witness("F55b", "C01")
+def f55b():
+    return f55()
+
+
 def _f56_body(mode):
     import types
     import stackscope
@@ -1549,6 +1554,65 @@ def f60():
     me = stackscope.extract(threading.current_thread())
     if not me.frames or me.frames[-1].funcname != "f60":
         return f"F60: extract(current_thread()) no longer ends at the caller: {[f.funcname for f in me.frames][-3:]}"
+    return None
+
+
+@witness("F61", "C20")
+def f61():
+    import linecache
+    import sys
+    import threading
+    import stackscope
+    from stackscope import _lowlevel as ll
+    from stackscope.lowlevel import set_trickery_enabled
+
+    class M:
+        def __enter__(s):
+            return s
+
+        def __exit__(s, *a):
+            return False
+
+    def gen():
+        with M() as the_manager:  # noqa: F841
+            yield
+
+    g = gen()
+    next(g)
+    set_trickery_enabled(None)          # auto-detection pending: the next inspection takes the slow path
+    code = ll._check_trickery_available.__code__
+    state = {"ran": False}
+
+    def local(frame, event, arg):
+        if event == "line" and not state["ran"] and ll._can_use_trickery is not None:
+            if linecache.getline(code.co_filename, frame.f_lineno).strip() == "return _can_use_trickery":
+                # detection is done; another thread's set_trickery_enabled(None) is issued right here (it has to wait if the
+                # lock is still held)
+                state["ran"] = True
+                t = threading.Thread(target=set_trickery_enabled, args=(None,), daemon=True)
+                t.start()
+                t.join(0.5)
+        return local
+
+    def tracer(frame, event, arg):
+        return local if frame.f_code is code else None
+
+    import contextlib
+    import io
+    import warnings
+
+    with warnings.catch_warnings(), contextlib.redirect_stderr(io.StringIO()):
+        warnings.simplefilter("ignore")
+        sys.settrace(tracer)
+        try:
+            r = ll._check_trickery_available()
+        finally:
+            sys.settrace(None)
+    if not state["ran"]:
+        return "F61: harness: the window was not reached"
+    if r is not True:
+        return (f"F61: auto-detection finished and set_trickery_enabled(None) issued by another thread as the call was about to return: "
+                f"_check_trickery_available() returned {r!r}; detection had succeeded (True), and None is no answer")
     return None
 
 
